@@ -115,6 +115,11 @@ void vh_rng_seed(struct vh_rng* r, uint64_t seed);
 uint64_t vh_rand(struct vh_rng* r);
 static inline uint64_t vh_below(struct vh_rng* r, uint64_t n) { return n ? vh_rand(r) % n : 0; }
 
+/* a > 8 GiB virtual region (NULL if the address space cannot be had) for buffers whose own size exceeds 2^32 */
+uint8_t* vh_huge_region(size_t* len);
+/* scramble ambient thread state libcbor must not depend on: errno and the floating-point rounding mode, chosen by `k` */
+void vh_ambient_scramble(uint64_t k);
+void vh_ambient_restore(void);
 /* exactly-sized heap copy (also for n == 0) so over-reads hit a red zone */
 uint8_t* vh_exact(const uint8_t* p, size_t n);
 
@@ -266,6 +271,8 @@ void walk_print_item(const cbor_item_t* it, struct vh_buf* out);
 typedef void (*walk_block_cb)(const void* p, size_t len, const char* what, void* ud);
 void walk_blocks(const cbor_item_t* it, walk_block_cb cb, void* ud);
 size_t walk_count_nodes(const cbor_item_t* it);
+/* predicates / getters consistent on every node? NULL if so, else a description */
+const char* walk_check_predicates(const cbor_item_t* it);
 /* all nodes have refcount 1? */
 bool walk_all_rc1(const cbor_item_t* it);
 /* build a libcbor tree from a reference tree through the construction API */
